@@ -273,6 +273,14 @@ func genC04wt(seed uint64, tier string) *Scenario {
 					op.Split = []int{r.Range(500, 5000)}
 				}
 			}
+			if !over && !slowNet(s) && r.Chance(1, 6) {
+				// frames of nothing but padding, up to several windows' worth:
+				// their flow-control cost must come back although nothing is
+				// delivered to the application
+				pp := core.Pick(r, 1, 100, 255)
+				k := r.Range(1, 3*win) / (pp + 1)
+				srv = append(srv, SOp{Op: "padding", N: max(1, min(k, 800)), Pad: pp})
+			}
 			srv = append(srv, op)
 			if r.Chance(1, 4) {
 				srv = append(srv, SOp{Op: "sleep", Ns: int64(r.LogUniform(1000, 100000000))})
